@@ -1141,6 +1141,7 @@ int Interpret::interpPipe() {
 
     bool inComment = false;
     bool inString = false;
+    bool inStringEscape = false;
     bool inQuotedSymbol = false;
 
     bool done  = false;
@@ -1192,6 +1193,15 @@ int Interpret::interpPipe() {
             }
             assert (not inComment and not inQuotedSymbol);
             if (inString) {
+                // the lexer reads \" and \\ inside a string literal as escapes
+                if (inStringEscape) {
+                    inStringEscape = false;
+                    if (c == '\"' or c == '\\') { continue; }
+                }
+                if (c == '\\') {
+                    inStringEscape = true;
+                    continue;
+                }
                 inString = (c != '\"');
             } else if (c == '\"') {
                 inString = true;
